@@ -151,6 +151,15 @@ def check_state(sp, st, rng):
             return {"kind": "exception", "detail": "arguments given as %s: %s: %s" % (lab, type(e).__name__, e)}, nontrivial
         if tuple(yc.shape) != tuple(y.shape) or not np.array_equal(np.asarray(yc).ravel(), exp):
             return {"kind": "value", "detail": "arguments given as %s are handled differently from lists" % lab}, nontrivial
+    # 64-bit integers above 2^53 are moved / summed exactly (no detour through floating point)
+    xi = (np.arange(1, n + 1, dtype=np.int64) + (1 << 53)).reshape(ishape)
+    try:
+        yi = call_real(sp, op, par, xi)
+        expi = [sum(int(xi.ravel()[lab - 1]) for lab in s_) for s_ in omap]
+        if yi.dtype != np.int64 or [int(v) for v in np.asarray(yi).ravel()] != expi:
+            return {"kind": "value", "detail": "int64 input above 2^53 is not rearranged exactly (dtype %s)" % yi.dtype}, nontrivial
+    except Exception as e:
+        return {"kind": "exception", "detail": "int64 input: %s: %s" % (type(e).__name__, e)}, nontrivial
     # real-valued input must be moved the same way (dtype preserved)
     xr = x.real.copy()
     yr = call_real(sp, op, par, xr)
